@@ -1,0 +1,9 @@
+//go:build verif
+
+// Machine-checked contracts for package lexer (read by /verif/govc; comments only).
+
+package lexer
+
+//@ func NewFromString [C01]
+//@   ensures [non-nil C01] result != nil && fresh(result)
+//@   assigns heap
